@@ -41,6 +41,17 @@ def gen_texts(seed: int, idx: int, tier: str) -> list[str]:
             fx = gen.fixtures(max_bytes=2500)
             d = dict(fx[rng.randrange(len(fx))]) if fx else gen.gen_project(rng)
         out.append(d["text"])
+    if tier == "thorough" and idx % 6 == 0:
+        # grid project: one week at one-minute resolution, so that the dense probe sweeps every minute of the week
+        # over the live shift tables (three resources with independent seeded shifts, three time zones)
+        from simplan.gen import _hours_spec, _night_then_day
+
+        sh = []
+        for i in range(3):
+            lines = _night_then_day(rng) if rng.random() < 0.4 else [_hours_spec(rng)] + ([_hours_spec(rng)] if rng.random() < 0.5 else [])
+            sh.append(f'shift g{i} "g{i}" {{\n' + "".join(f"  workinghours {ln}\n" for ln in lines) + "}")
+        res = "\n".join(f'resource q{i} "Q{i}" {{ workinghours g{i} }}' for i in range(3))
+        out.append('project grid "Grid" 2025-03-03 +1w {\n  timingresolution 1min\n  now 2025-03-03\n}\n' + "\n".join(sh) + "\n" + res + '\ntask a "A" { effort 3h allocate q0 }\ntask b "B" { effort 2h allocate q1 depends a }\n')
     if tier == "thorough" and idx % 40 == 7:
         out.append('project far "Far" 2025-01-06 +70y {\n  now 2025-01-06\n}\nresource r0 "R0" {}\ntask a "A" { effort 8h allocate r0 }\ntask z "Z" { start 2094-06-01 duration 4h }\n')
     return out
@@ -50,7 +61,7 @@ def shadow_job(args: dict) -> dict:
     texts = gen_texts(args["seed"], args["idx"], args["tier"])
     wd = snapshot.new_scratch("c13s")
     try:
-        r = libworld.fork_call(libworld.c13_shadow_run, (texts, f"{PROP}:{args['seed']}:{args['idx']}:probe", wd), 900)
+        r = libworld.fork_call(libworld.c13_shadow_run, (texts, f"{PROP}:{args['seed']}:{args['idx']}:probe", wd, args["tier"] == "thorough"), 1800)
     finally:
         snapshot.drop_scratch(wd)
     r["idx"] = args["idx"]
